@@ -13,6 +13,15 @@ let int_of_n = function N0 -> 0 | Npos p -> int_of_pos p
 
 let instant_of s ns = { t_sec = z_of_int (int_ s); t_ns = n_of_int (int_ ns) }
 
+(* bytes of a Create case: a hex atom, (p start len) = the fixed position-dependent
+   pattern of the harness (patByte), or (b seg..) = the concatenation of segments *)
+let pat_byte i = Char.chr ((((i land 0xFFFFFFFF) * 2654435761) land 0xFFFFFFFF) lsr 24)
+let rec bytes_ = function
+  | A a -> chars_of_hexatom a
+  | L [A "p"; s; l] -> let s = int_ s in List.init (int_ l) (fun k -> pat_byte (s + k))
+  | L (A "b" :: segs) -> List.concat_map bytes_ segs
+  | _ -> raise (Parse_error "bytes")
+
 let fi_of = function
   | L [A "fi"; p; size; sec; ns; d; mime; etag] ->
     { i_path = str p; i_size = n_of_int (int_ size); i_mod = instant_of sec ns; i_dir = bool_ d;
@@ -51,7 +60,7 @@ let call_of = function
   | L [A "stat"; n] -> CStat (str n)
   | L [A "readdir"; n; rc] -> CReadDir (str n, bool_ rc)
   | L [A "open"; n] -> COpen (str n)
-  | L [A "create"; n; b; im; inm] -> CCreate (str n, str b, str im, str inm)
+  | L [A "create"; n; b; im; inm] -> CCreate (str n, bytes_ b, str im, str inm)
   | L [A "rm"; n; im; inm] -> CRemoveAll (str n, str im, str inm)
   | L [A "mkdir"; n] -> CMkdir (str n)
   | L [A "copy"; n; d; nr; no] -> CCopy (str n, str d, bool_ nr, bool_ no)
@@ -62,7 +71,10 @@ let op_of = function
   | L [A "stat"; n] -> OpStat (str n)
   | L [A "readdir"; n; rc] -> OpReadDir (str n, bool_ rc)
   | L [A "open"; n] -> OpOpen (str n)
-  | L [A "create"; n; L chunks] -> OpCreate (str n, List.map str chunks)
+  | L [A "create"; n; L chunks] ->
+    if List.exists (function L _ -> true | A _ -> false) chunks then bump "create_schedule";
+    bump (Printf.sprintf "create_writes_%d" (min 9 (List.length chunks)));
+    OpCreate (str n, List.map bytes_ chunks)
   | L [A "rm"; n] -> OpRemoveAll (str n)
   | L [A "mkdir"; n] -> OpMkdir (str n)
   | L [A "copy"; n; d; nr; no] -> OpCopy (str n, str d, bool_ nr, bool_ no)
@@ -152,7 +164,7 @@ let () =
        | Some out ->
          bump (match out with OErr _ -> "out_err" | _ -> "out_ok");
          if calls <> [] then note_nontrivial (show (List.hd sx));
-         let st = opt_str stored in
+         let st = (match stored with A "-" -> None | b -> Some (bytes_ b)) in
          if st <> None then bump "create_read_back";
          let agree = model_agrees x fs ep o calls out in
          let spec = spec_ok x fs ep o calls out && stored_ok o st in
@@ -168,6 +180,7 @@ let () =
              let s2 = (match o with OpReadDir (n, r) -> tree_spec_ok t ep n r out | _ -> true) in
              (agree && a2, spec && s2)
            end else (agree, spec) in
+         if agree && spec then None else
          let (mc, mo) = run_op x fs ep o in
          verdict ~agree ~spec ~kf:"-"
            ~detail:(Printf.sprintf "model: calls=[%s] out=%s" (String.concat "; " (List.map show_call mc)) (show_out mo)))
